@@ -242,9 +242,9 @@ FinalBases(c) == [b \in 1..Len(classes[c].raw) |->
                          IN IF r2 # NoObj /\ Cls(st, r2) = "Class" /\ r2 # c THEN r2 ELSE NoObj]
 PostProcess == /\ phase = "process" /\ stack = <<>> /\ unproc = <<>> /\ ~st.crash
                /\ LET fb == [c \in DOMAIN classes |-> FinalBases(c)] IN
-                    \* Class._init_mro: an inconsistent hierarchy (ValueError) falls back on allbases(include_self)
+                    \* Class._init_mro: an inconsistent hierarchy (ValueError) falls back on allbases(include_self), each class once
                     post' = [c \in DOMAIN classes |-> [final |-> fb[c],
-                                 mro |-> LET l == Lin(c, fb, 8) IN IF 0 \in SeqRange(l) THEN AllBases(c, fb, 8) ELSE l,
+                                 mro |-> LET l == Lin(c, fb, 8) IN IF 0 \in SeqRange(l) THEN Uniq(AllBases(c, fb, 8)) ELSE l,
                                  consistent |-> 0 \notin SeqRange(Lin(c, fb, 8))]]
                /\ phase' = "done"
                /\ UNCHANGED <<st, mobj, mstate, unproc, stack, classes, log>>
